@@ -562,6 +562,127 @@ def _captured_index(body, op, depth=0):
     return None
 
 
+def _switch_of_defs(body, def_blocks):
+    """(switch block, discriminated place, discr type, {def block: [values]}) when every block of `def_blocks` is entered only from one and the same switch on
+    `discriminant(place)` and that place is a local (never a projection through a pointer that might change); else None."""
+    blocks = body["blocks"]
+    preds = {}
+    for bj, bb in enumerate(blocks):
+        t = bb["term"]
+        succ = []
+        if t.get("k") == "switch":
+            succ = [a[1] for a in t["arms"]] + [t["otherwise"]]
+        elif t.get("k") == "goto":
+            succ = [t["target"]]
+        elif t.get("target") is not None:
+            succ = [t["target"]]
+        for s_ in succ:
+            preds.setdefault(s_, []).append(bj)
+    sw = None
+    for d in def_blocks:
+        ps = preds.get(d, [])
+        if len(ps) != 1 or blocks[ps[0]]["term"].get("k") != "switch":
+            return None
+        if sw is None:
+            sw = ps[0]
+        elif sw != ps[0]:
+            return None
+    t = blocks[sw]["term"]
+    dop = t["discr"]
+    if dop.get("k") not in ("move", "copy") or dop["pl"]["p"]:
+        return None
+    dl = dop["pl"]["l"]
+    dst = [st for st in blocks[sw]["stmts"] if st["k"] == "assign" and st["pl"]["l"] == dl and not st["pl"]["p"]]
+    if len(dst) != 1 or dst[0]["rv"].get("k") != "discr" or dst[0]["rv"]["pl"]["p"]:
+        return None
+    place = dst[0]["rv"]["pl"]
+    # the discriminated local is assigned exactly once in the whole body
+    ndefs = sum(1 for bb in blocks for st in bb["stmts"] if st["k"] == "assign" and st["pl"]["l"] == place["l"] and not st["pl"]["p"]) + \
+        sum(1 for bb in blocks if bb["term"].get("k") == "call" and bb["term"]["dest"]["l"] == place["l"] and not bb["term"]["dest"]["p"])
+    if ndefs != 1:
+        return None
+    arm_of = {}
+    for v_, tgt in t["arms"]:
+        if tgt in def_blocks:
+            arm_of.setdefault(tgt, []).append(v_)
+    if t["otherwise"] in def_blocks or set(arm_of) != set(def_blocks):
+        return None
+    return sw, place, t.get("dty", "isize"), arm_of
+
+
+def _defunctionalise(body):
+    """A call through a function pointer local that is assigned, on different paths, one of several known function items (`let f: fn(..) = match ty { A => fa, B => fb };
+    .. f(x)`) becomes a switch over a selector recorded at the assignments, with one direct call per item.  Returns the number of call sites rewritten."""
+    blocks, locs = body["blocks"], body["locals"]
+    n = 0
+    for bi in range(len(blocks)):
+        t = blocks[bi]["term"]
+        if t.get("k") != "call" or blocks[bi].get("cleanup") or t.get("target") is None:
+            continue
+        fo = t.get("func") or {}
+        if fo.get("k") not in ("move", "copy") or fo["pl"]["p"]:
+            continue
+        # follow plain moves back to the multiply-assigned pointer local
+        l, seen = fo["pl"]["l"], set()
+        while l not in seen:
+            seen.add(l)
+            defs = [(bj, si, st) for bj, bb in enumerate(blocks) for si, st in enumerate(bb["stmts"]) if st["k"] == "assign" and st["pl"]["l"] == l and not st["pl"]["p"]]
+            if len(defs) == 1 and defs[0][2]["rv"].get("k") == "use" and defs[0][2]["rv"]["ops"][0].get("k") in ("move", "copy") and not defs[0][2]["rv"]["ops"][0]["pl"]["p"]:
+                l = defs[0][2]["rv"]["ops"][0]["pl"]["l"]
+                continue
+            break
+        items = []
+        for bj, si, st in defs:
+            rv = st["rv"]
+            if rv.get("k") == "cast" and "ReifyFnPointer" in (rv.get("cast") or "") and rv["ops"][0].get("k") == "const" and rv["ops"][0].get("fn"):
+                items.append((bj, si, rv["ops"][0]))
+            else:
+                items = None
+                break
+        if not items or len(items) < 2 or any(bb["term"].get("k") == "call" and bb["term"]["dest"]["l"] == l for bb in blocks):
+            continue
+        sp = t.get("sp") or t.get("fnsp")
+        # when the assignments sit directly in the arms of ONE switch on an enum discriminant whose place is still intact at the call, the call site can
+        # switch on that very discriminant again (the selector is then not needed and rules see the familiar `match ty { A => fa(x), .. }`)
+        same = _switch_of_defs(body, [bj for bj, _, _ in items])
+        if same is not None:
+            sbi, dplace, dty, arm_of = same
+            locs.append({"ty": "isize"})
+            d2 = len(locs) - 1
+            nb = len(blocks)
+            arms = []
+            for idx, (bj, si, op) in enumerate(items):
+                call = {"k": "call", "func": copy.deepcopy(op), "args": copy.deepcopy(t["args"]), "dest": copy.deepcopy(t["dest"]), "target": t["target"], "fnsp": sp, "sp": sp,
+                        "callee": op["fn"], "callee_args": op.get("fnargs", op["fn"]), "targs": [], "res": op["fn"], "res_args": op.get("fnargs", op["fn"]), "res_kind": "item", "inl": "defun",
+                        **({"unwind": t["unwind"]} if "unwind" in t else {})}
+                blocks.append({"stmts": [], "term": call})
+                for v_ in arm_of[bj]:
+                    arms.append([str(v_), nb + idx])
+            blocks.append({"stmts": [], "term": {"k": "unreachable", "sp": sp}})
+            blocks[bi]["stmts"].append({"k": "assign", "pl": {"l": d2, "p": []}, "rv": {"k": "discr", "pl": copy.deepcopy(dplace)}, "sp": sp, "inl": "defun"})
+            blocks[bi]["term"] = {"k": "switch", "discr": {"k": "move", "pl": {"l": d2, "p": []}}, "dty": dty, "arms": arms, "otherwise": nb + len(items), "sp": sp, "inl": "defun"}
+            n += 1
+            continue
+        locs.append({"ty": "usize", "name": "fn_selector"})
+        sel = len(locs) - 1
+        # record the selector next to each assignment (insert from the back so that statement indices stay valid)
+        for idx, (bj, si, op) in sorted(enumerate(items), key=lambda x: (x[1][0], -x[1][1])):
+            blocks[bj]["stmts"].insert(si + 1, {"k": "assign", "pl": {"l": sel, "p": []}, "rv": {"k": "use", "ops": [{"k": "const", "ty": "usize", "val": "%d_usize" % idx, "bits": str(idx)}]},
+                                                "sp": sp, "inl": "defun"})
+        nb = len(blocks)
+        arms = []
+        for idx, (bj, si, op) in enumerate(items):
+            call = {"k": "call", "func": copy.deepcopy(op), "args": copy.deepcopy(t["args"]), "dest": copy.deepcopy(t["dest"]), "target": t["target"], "fnsp": sp, "sp": sp,
+                    "callee": op["fn"], "callee_args": op.get("fnargs", op["fn"]), "targs": [], "res": op["fn"], "res_args": op.get("fnargs", op["fn"]), "res_kind": "item", "inl": "defun",
+                    **({"unwind": t["unwind"]} if "unwind" in t else {})}
+            blocks.append({"stmts": [], "term": call})
+            arms.append([str(idx), nb + idx])
+        blocks.append({"stmts": [], "term": {"k": "unreachable", "sp": sp}})
+        blocks[bi]["term"] = {"k": "switch", "discr": {"k": "copy", "pl": {"l": sel, "p": []}}, "dty": "usize", "arms": arms, "otherwise": nb + len(items), "sp": sp, "inl": "defun"}
+        n += 1
+    return n
+
+
 def inline_new_helpers(raw, baseline=None, keep=None):
     """Returns the list of (caller path, helper path) pairs that were inlined (raw is modified in place)."""
     if baseline is None:
@@ -572,6 +693,9 @@ def inline_new_helpers(raw, baseline=None, keep=None):
     for b in raw["bodies"]:
         by_path.setdefault(b["path"], b)
     done = []
+    for b in raw["bodies"]:
+        if _defunctionalise(b):
+            done.append((b["path"], "defunctionalised"))
     pristine_all = None
     for b in raw["bodies"]:
         for _ in range(MAX_DEPTH):
